@@ -162,14 +162,15 @@ def t3(ctx):
         os_ = origins(du, node, e)
         return bool(os_) and all(o.kind == "elem" and o.node in listing_loops for o in os_)
 
+    from .common import as_tuple
     for y in ys:
-        v = y.ast.value.value
-        if not (isinstance(v, ast.Tuple) and len(v.elts) == 4):
+        elts = as_tuple(ctx, ic, y, y.ast.value.value) if y.ast.value.value is not None else None
+        if not (elts and len(elts) == 4):
             continue
-        last = v.elts[3]
+        last = elts[3]
         if isinstance(last, ast.Constant) and last.value is None:
             # inside a loop over the leftover of a dict that was built from a listing
-            for o in origins(du, y, v.elts[0]):
+            for o in origins(du, y, elts[0]):
                 if o.kind != "elem":
                     continue
                 nm = base_name(o.leaf)
